@@ -182,9 +182,18 @@ func scenario(name string, ops []op, bounds []int) *vexp.Scenario {
 					var err error
 					switch o.kind {
 					case "once":
-						err = ctx.Scheduler().Once(recv, o.d, payload, vivid.WithSchedulerReference(o.ref))
+						if o.ref == "" {
+							// API variant: the whole option struct is given (here only a Location), no reference at all
+							err = ctx.Scheduler().Once(recv, o.d, payload, vivid.WithScheduleOptions(vivid.ScheduleOptions{Location: time.UTC}))
+						} else {
+							err = ctx.Scheduler().Once(recv, o.d, payload, vivid.WithSchedulerReference(o.ref))
+						}
 					case "loop":
-						err = ctx.Scheduler().Loop(recv, o.d, payload, vivid.WithSchedulerReference(o.ref))
+						if o.ref == "" {
+							err = ctx.Scheduler().Loop(recv, o.d, payload, vivid.WithScheduleOptions(vivid.ScheduleOptions{Location: time.UTC}))
+						} else {
+							err = ctx.Scheduler().Loop(recv, o.d, payload, vivid.WithSchedulerReference(o.ref))
+						}
 					case "cron":
 						err = ctx.Scheduler().Cron(recv, "*/2 * * * * *", payload, vivid.WithSchedulerReference(o.ref))
 					case "badcron":
@@ -448,6 +457,9 @@ func build(tier string) []*vexp.Scenario {
 	// jobs registered by the death sequence itself (OnKill handler) die with the incarnation too
 	add("sched-in-onkill/kill", op{0, "o1", "loop", "a", s, "self"}, op{s + half, "o1", "kill-sched", "", 0, "self"})
 	add("sched-in-onkill/restart", op{0, "o1", "loop", "a", s, "self"}, op{s + half, "o1", "restart-sched", "", 0, "self"})
+	// jobs scheduled with a full option struct and no reference
+	add("no-reference/once", op{0, "o1", "once", "", s, "self"})
+	add("no-reference/loop+kill", op{0, "o1", "loop", "", s, "r"}, op{2*s + half, "o1", "kill", "", 0, "r"})
 	// the same reference registered again while the first job is pending: the first job stands and stays cancellable / clearable
 	for _, jk := range []string{"once", "loop"} {
 		for _, term := range []string{"cancel", "clear", "kill", "restart"} {
